@@ -23,7 +23,7 @@ SHAPES = {
 THRESHOLDS = [constants.GREATER_THAN_HALF, 0.67, 1.0, 0.5, 0.34, 0.2]
 
 K = 4
-SPEC = ([("t%d" % i, int) for i in range(K)] + [("w%d" % i, int) for i in range(K)] + [("len%d_%d" % (i, j), int) for i in range(K) for j in range(7)] +
+SPEC = ([("t%d" % i, int) for i in range(K)] + [("w%d" % i, int) for i in range(K)] + [("wn%d" % i, bool) for i in range(K)] + [("len%d_%d" % (i, j), int) for i in range(K) for j in range(7)] +
         [("rooted", bool), ("use_w", bool), ("th", int), ("target", int), ("pct", bool), ("aslabel", bool), ("hist", bool), ("metric", bool), ("lm", int),
          ("k", int), ("mode", str), ("npool", int)])
 
@@ -91,7 +91,7 @@ def build_inputs(kw, lengths_mode=0):
                 lengths = [None] + [sc * (1 + (j % 3)) for j in range(1, n)]
         t, nodes = make_tree(nw, tns, rooted, lengths)
         w = 1
-        if use_w:
+        if use_w and not kw["wn%d" % i]:      # (a tree without an explicit weight counts as 1 among weighted ones)
             w = kw["w%d" % i]
             assume((w >= 1) & (w <= 50))
             t.weight = w
@@ -386,7 +386,7 @@ def classify(inp):
     return inp.get("mode", "")
 
 
-BUDGET = dict(quick=240, thorough=1500)
+BUDGET = dict(quick=240, thorough=1000)
 
 
 def harnesses(tier):
@@ -414,7 +414,7 @@ def harnesses(tier):
                 out.append(dict(k=k, mode=mode, npool=npool))
         return out
     B = dict(trees="1..%d trees, each a symbolic choice from %d labelled topologies on 4 taxa (binary, partly resolved, star)" % (max(ks), npool),
-             rooting="rooted / unrooted (symbolic, same for all)", weights="use_tree_weights symbolic; each weight a symbolic int in [1,50]")
+             rooting="rooted / unrooted (symbolic, same for all)", weights="use_tree_weights symbolic; each tree either without a weight or with a symbolic int weight in [1,50]")
     hs = [Harness("c05_freqs", "C05", c05_freqs, sh("freqs", True), bounds=B,
                   functions=["TreeList.split_distribution", "SplitDistribution.count_splits_on_tree/calc_freqs/__getitem__"], cost=2.0, **common),
           Harness("c05_consensus", "C05", c05_consensus, sh("consensus", True), bounds=dict(B, threshold="symbolic choice from %r" % THRESHOLDS),
